@@ -14,7 +14,11 @@
 
    Floats are IEEE-754 bit patterns (Z): the comparison with the implementation is byte-exact.
    The OS is not modelled: `terminate` says that a running child that is sent SIGTERM and waited for is
-   gone, FIFOs deliver what was written, `poll` reports a dead child. *)
+   gone, FIFOs deliver what was written (whole messages: every message is smaller than the pipe
+   capacity), `poll` reports a dead child, writing to a FIFO whose reader is gone fails at once (ENXIO at
+   the first open, EPIPE afterwards).  A child can die at three kinds of moments, by any signal:
+   when it is about to write its k-th message (the optimizer is computing), right after it read the
+   answer to its k-th message, and while it is blocked waiting for that answer. *)
 From Coq Require Import List Bool Arith ZArith String.
 From Ropt Require Import Base.ListX.
 Import ListNotations.
@@ -209,7 +213,8 @@ Inductive exc :=
 | ExAbort (code : Z)              (* OptimizationAborted *)
 | ExUser (cls : string)           (* the evaluator's own exception, re-raised *)
 | ExOptimizer (msg : string)      (* the optimizer failed (external: RuntimeError "External optimizer error") *)
-| ExDeath (returncode : Z).       (* RuntimeError "terminated abnormally" *)
+| ExDeath (returncode : Z)        (* RuntimeError "terminated abnormally" *)
+| ExPipe.                         (* OSError from comm.write: the reader of the answer FIFO is gone *)
 Inductive result := Return | Raise (e : exc).
 
 (* ---- in-process run: optimizer.start(...) calling the callback directly ----------------------- *)
@@ -235,8 +240,12 @@ Fixpoint inproc (fuel : nat) (ev : evaluator) (s : history -> action) (hist : hi
 (* ---- the child process ------------------------------------------------------------------------ *)
 Inductive fault :=
 | NoFault
-| DieAfter (k : nat)                 (* SIGKILL when about to write message number k *)
-| ExitAfter (k : nat) (code : Z).    (* exits with `code` at the same point, without a report *)
+| DieAfter (k : nat) (sg : positive)     (* dies by signal sg when about to write message number k *)
+| DieOnAnswer (k : nat) (sg : positive)  (* dies by signal sg right after reading the answer to message k:
+                                            before the next thing it does -- write message k, or return *)
+| DieWaiting (k : nat) (sg : positive)   (* killed by signal sg while blocked waiting for the answer to its
+                                            k-th message (k >= 1), after the parent has read that message *)
+| ExitAfter (k : nat) (code : Z).        (* exits with `code` when about to write message k, without a report *)
 
 Inductive cphase :=
 | PConfig
@@ -251,14 +260,33 @@ Inductive cstate :=
 
 Definition sigkill : positive := 9%positive.
 Definition sigterm : positive := 15%positive.
+Definition sigint : positive := 2%positive.
+
+(* the child does not get to write its message number `sent` *)
+Definition dies_now (flt : fault) (sent : nat) : option cstate :=
+  match flt with
+  | DieAfter k sg | DieOnAnswer k sg => if Nat.leb k sent then Some (CKilled sg) else None
+  | ExitAfter k c => if Nat.leb k sent then Some (CExited c) else None
+  | NoFault | DieWaiting _ _ => None
+  end.
+(* the child does not get to return from `run` after `sent` messages *)
+Definition dies_at_return (flt : fault) (sent : nat) : option cstate :=
+  match flt with
+  | DieOnAnswer k sg => if Nat.leb k sent then Some (CKilled sg) else None
+  | _ => None
+  end.
+(* the child is dead when the parent writes the answer to its message number `sent` *)
+Definition dead_waiting (flt : fault) (sent : nat) : option positive :=
+  match flt with
+  | DieWaiting k sg => if Nat.eqb k sent then Some sg else None
+  | _ => None
+  end.
 
 (* `self._comm.write(request)` of the child's message number `sent` *)
 Definition child_send (flt : fault) (ph : cphase) (req : request) (sent : nat) : cstate * option jv :=
-  let ok := (CWaiting ph req (S sent), Some (enc_request req)) in
-  match flt with
-  | NoFault => ok
-  | DieAfter k => if Nat.leb k sent then (CKilled sigkill, None) else ok
-  | ExitAfter k c => if Nat.leb k sent then (CExited c, None) else ok
+  match dies_now flt sent with
+  | Some c => (c, None)
+  | None => (CWaiting ph req (S sent), Some (enc_request req))
   end.
 
 (* optimizer.start runs until it needs an evaluation, returns, or raises *)
@@ -266,7 +294,7 @@ Definition child_optimize (flt : fault) (s : strategy) (cfg : jv) (x0 : list fl)
            (sent : nat) : cstate * option jv :=
   match s cfg x0 hist with
   | Ask v rf rg => child_send flt (POpt cfg x0 hist) (REval v rf rg) sent
-  | Stop => (CExited 0, None)
+  | Stop => match dies_at_return flt sent with Some c => (c, None) | None => (CExited 0, None) end
   | Fail m => child_send flt PError (RError m) sent
   end.
 
@@ -333,10 +361,19 @@ Definition read_part (ev : evaluator) (cfg : jv) (x0 : list fl) (readable : bool
   | _, _, _ => st
   end.
 
-(* `if answer is not None and comm.write(answer): ...` *)
+(* `if answer is not None and comm.write(answer): ...`
+   A child that was killed while it waited for this answer has closed its end of the FIFO: comm.write raises
+   (before the stored exception is looked at); the death is placed at the write attempt, which is where it
+   becomes observable (in the code the write is attempted in the same pass in which the request was read). *)
+Definition pipe_broken (flt : fault) (c : cstate) : option positive :=
+  match c with CWaiting _ _ sent => dead_waiting flt sent | _ => None end.
+
 Definition write_part (s : strategy) (flt : fault) (writable : bool) (st : sys) : step_result :=
   match p_answer (s_par st), writable with
   | Some a, true =>
+      match pipe_broken flt (s_child st) with
+      | Some sg => Done (Raise ExPipe) {| s_par := s_par st; s_child := CKilled sg; s_c2p := s_c2p st |}
+      | None =>
       let j := enc_answer a in
       let p := s_par st in
       let p' := {| p_answer := None; p_exn := p_exn p; p_trace := p_trace p; p_wire := p_wire p ++ [WW j] |} in
@@ -351,6 +388,7 @@ Definition write_part (s : strategy) (flt : fault) (writable : bool) (st : sys) 
               Continue {| s_par := p'; s_child := c; s_c2p := out |}
           | c => Continue {| s_par := p'; s_child := c; s_c2p := s_c2p st |}
           end
+      end
       end
   | _, _ => Continue st
   end.
